@@ -413,7 +413,8 @@ OPTIONAL_TABLES = ["edge_node", "face_edge", "edge_face", "face_face"]
 
 
 @st.composite
-def ugrid_encoding(draw, supply=None, coords_as=None, allow_transpose=True, dtypes=("i4", "i4", "i8", "i2"),
+def ugrid_encoding(draw, supply=None, coords_as=None, allow_transpose=True,
+                   dtypes=("i4", "i4", "i8", "i2", "u4", "u2"),
                    require_edge_node=True):
     if supply is None:
         supply = [t for t in OPTIONAL_TABLES if draw(st.booleans())]
@@ -451,6 +452,8 @@ def ugrid_encoding(draw, supply=None, coords_as=None, allow_transpose=True, dtyp
         # the face tables may be wider than the largest face (all-triangle mesh in a table
         # four columns wide): the surplus column holds only fill
         "pad_columns": draw(st.sampled_from([0, 0, 0, 1])),
+        # attributes of the mesh variable that name a connectivity variable which is absent
+        "dangling": [t for t in OPTIONAL_TABLES if draw(st.integers(0, 7)) == 0],
         # the global Conventions attribute lists UGRID alone or next to CF, separated by a
         # blank, a comma (both CF-legal) or a slash
         "conventions": draw(st.sampled_from(["UGRID-1.0", "UGRID-1.0", "UGRID", "CF-1.6 UGRID-1.0",
